@@ -98,6 +98,14 @@ class FakeLabels:
         self.videos = ["v0"]
         self._frames = [_LF(i, fail, "v0") for i in range(start, end)]
 
+    @property
+    def user_labeled_frames(self):  # every third frame carries predictions only: inference must still read ALL frames of the labels file
+        return [f for f in self._frames if f.frame_idx % 3 != 2]
+
+    @property
+    def labeled_frames(self):
+        return list(self._frames)
+
     def __len__(self):
         return len(self._frames)
 
@@ -146,10 +154,12 @@ def simulate(kind: str, start: int, end: int, Q: int, B: int, fail: int, sched: 
         reader = make_video_reader(end + EXTRA_FRAMES, fail, start, end)
         prod = co["video"](reader)
     else:
+        import sleap_nn.data.providers as prov
+        reader = prov.LabelsReader.__new__(prov.LabelsReader)  # real class (real total_len and friends); the constructor needs sleap_io labels, so its four attributes are set here
         reader.labels = FakeLabels(start, end, fail)
+        reader.frame_buffer = None
         reader.instances_key = False
         reader.max_instances = 1
-        reader.total_len = lambda: len(reader.labels)
         prod = co["labels"](reader)
     P = _Obj()
     P.pipeline = _Obj()
